@@ -26,6 +26,8 @@ pub mod half_space;
 pub mod integrals;
 mod voronoi_cell;
 mod voronoi_face;
+#[cfg(feature = "verif")]
+pub mod verif_hooks;
 
 /// The dimensionality of the Voronoi tessellation.
 #[derive(
@@ -283,6 +285,8 @@ impl Voronoi {
 
         // Helper function to build a single cell
         let build = |(idx, faces)| {
+            #[cfg(feature = "verif")]
+            verif_hooks::on_cell_start(idx);
             if mask.map_or(true, |mask| mask[idx]) {
                 let generator: &Generator = &generators[idx];
                 let loc = generator.loc();
@@ -580,6 +584,8 @@ impl VoronoiIntegrator<WithoutFaces> {
 
         // Helper function
         let build = |(idx, generator): (usize, &Generator)| {
+            #[cfg(feature = "verif")]
+            verif_hooks::on_cell_start(idx);
             if cell_is_active[idx] {
                 let loc = generator.loc();
                 debug_assert_eq!(generator.id(), idx);
